@@ -56,8 +56,8 @@ func (k Kind) sort() string {
 	return "?"
 }
 
-func vInt(s string) Val   { return Val{K: KInt, S: s} }
-func vBool(s string) Val  { return Val{K: KBool, S: s} }
+func vInt(s string) Val     { return Val{K: KInt, S: s} }
+func vBool(s string) Val    { return Val{K: KBool, S: s} }
 func vConstInt(n int64) Val { return vInt(sInt(n)) }
 
 func (v Val) isScalar() bool {
